@@ -278,7 +278,8 @@ CLAIMED = {
         design_ref="DESIGN.md section 6 C03, section 4.5",
         note=("Trusted: TLC, the JSON projection of results (structural only), a valid row index as input (C02). "
               "Bounded scope: n<=3 exhaustive (quick), n<=4 exhaustive + structured n<=6 + random n<=9 (thorough). "
-              "pydata/sparse output not covered (package absent)."),
+              "pydata/sparse output not covered (package absent). Slice bounds beyond the table / reversed ranges are observed "
+              "separately and judged by their own clause: open known finding F29 (the repair breaks an existing test)."),
         technique="TLA+ model checking (TLC) of the query algorithm + TLC trace validation of real query results",
         category="model_checking"),
 }
@@ -319,7 +320,11 @@ def main():
             "kind_free_text": "explicit TLA+ specification (spec/*.tla) checked by TLC; conformance by TLC trace validation of events recorded from the real code and by replaying TLC-generated behaviours into it",
         }],
         "checks": checks,
-        "notes": "All verdicts are made by TLC on the TLA+ specification in /verif/spec. Exit 2 = machinery failure (never a VIOLATION).",
+        "notes": ("All verdicts are made by TLC on the TLA+ specification in /verif/spec. Exit 2 = machinery failure (never a VIOLATION). "
+                  "Every driver varies, by independent per-case feature choices, where the collection lives (file root / nested group next "
+                  "to a decoy collection with other content, bin table and names), what the path held before, the row labels and dtypes of "
+                  "the frames handed in, value types, and API vs command line (DESIGN.md section 5.2e). Open known findings: F3 (C05), "
+                  "F19 (C10), F29 (C03) - classified by TLC clause names, see known_findings.json."),
         "not_applicable": [{"property_id": p, "reason": NA.get(p, REASON_PENDING)} for p in ALL if p not in CLAIMED],
     }
     with open(os.path.join(ROOT, "MANIFEST.json"), "w") as f:
